@@ -55,6 +55,15 @@ def h_entries(eng, names):
         eng.prove(dim == {DIM[k]: Fraction(e) for k, e in vec.items() if k in DIM}, f"dimensionality:{name}")
         if sym is not None:
             eng.prove(ureg.get_symbol(name) == sym, f"symbol:{name}")
+        # whatever symbol the registry reports for the entry, written by a user, denotes the entry
+        rsym = ureg.get_symbol(name)
+        try:
+            rs = ureg.Quantity(x, rsym).to_root_units()
+        except Exception as ex:  # noqa: BLE001
+            eng.fail(f"reported-symbol-not-readable:{name}:{rsym}:{type(ex).__name__}", stop=False)
+        else:
+            eng.prove(Eq(rs.magnitude, x * value * Fraction(1000) ** kg), f"reported-symbol-reads-back:{name}")
+            eng.prove(ureg.Unit(rsym) == ureg.Unit(name), f"reported-symbol-same-unit:{name}")
         # the registry-level factor API answers from its own tables: same value
         f, ru = ureg.get_root_units(name)
         eng.prove(Eq(f, value * Fraction(1000) ** kg), f"get_root_units:{name}")
@@ -83,6 +92,31 @@ def h_entries_float(eng, names):
             got = ureg.Quantity(t, name).to("kelvin").magnitude
             want = Fraction(t) * sc + off
             eng.prove(abs(Fraction(got) - want) <= Fraction(1, 10**11), f"float-temperature:{name}:{t}")
+
+
+def h_system_accessor(eng, system):
+    """ureg.sys.<system>.<spelling>: the system's own unit of that name (imperial gallon, not the
+    US one), under its name, symbol and every alias"""
+    ureg = regs.default(eng)
+    x = eng.real("x")
+    tab = {n: (v, vec, sym) for n, v, vec, sym in stdtable.entries()}
+    acc = getattr(ureg.sys, system)
+    pre = system + "_"
+    for name, (value, vec, _sym) in tab.items():
+        if not name.startswith(pre):
+            continue
+        d = ureg._units[name]
+        spellings = {name[len(pre) :]} | {a[len(pre) :] for a in (d.aliases + ((d.symbol,) if d.symbol else ())) if a.startswith(pre)}
+        kg = vec.get("kg", 0)
+        for sp in sorted(spellings):
+            if not sp.isidentifier():
+                continue
+            u = getattr(acc, sp)
+            r = ureg.Quantity(x, u).to_root_units()
+            eng.prove(Eq(r.magnitude, x * value * Fraction(1000) ** kg), f"sys.{system}.{sp}:value")
+            eng.prove(u == ureg.Unit(name), f"sys.{system}.{sp}:is-{name}")
+    # a unit the system does not rename is the registry's unit
+    eng.prove(getattr(acc, "meter") == ureg.Unit("meter") and getattr(acc, "second") == ureg.Unit("second"), f"sys.{system}:plain-units")
 
 
 def h_temperatures(eng):
@@ -150,6 +184,8 @@ def cases(tier, seed):
     for i in range(0, len(names), 60):
         out.append(Case("H20.table", f"float:{i:03d}", M, "h_entries_float", {"names": names[i : i + 60]}, kind="conc"))
     out.append(Case("H20.temperature", "all", M, "h_temperatures", {}, validate=1))
+    for system in ("imperial", "US"):
+        out.append(Case("H20.table", f"system-accessor:{system}", M, "h_system_accessor", {"system": system}, validate=1))
     out.append(Case("H20.prefix", "all", M, "h_prefixes", {}, validate=1))
     for u in SI_UNITS:
         out.append(Case("H20.prefix", f"cross:{u}", M, "h_prefix_cross", {"unit": u}, validate=1))
